@@ -216,6 +216,20 @@ var (
 //   characters that are compared in a case-insensitive
 //   fashion. However, header field names MUST be converted to
 //   lowercase prior to their encoding in HTTP/2. "
+// validMethod reports whether v is a token, the only legal form of a
+// request method.
+func validMethod(v string) bool {
+	if len(v) == 0 {
+		return false
+	}
+	for i := 0; i < len(v); i++ {
+		if int(v[i]) >= len(isTokenTable) || !isTokenTable[v[i]] {
+			return false
+		}
+	}
+	return true
+}
+
 func validHeaderFieldName(v string) bool {
 	if len(v) == 0 {
 		return false
